@@ -6,17 +6,31 @@ prog = {
                       declaration order]}},
   "frames": {key: {"framer", "name", "over": key|"", "under": key|"", "auxes": [framer names],
                    "benter": [needs], "enter"/"renter"/"precur"/"recur"/"exit"/"rexit": [acts]}},
-  "shares": {share name: initial int}, "inputs": [share names written by the environment]}
+  "shares": {share name: initial value}, "inputs": [share names written by the environment],
+  "envvals": {input share: [values the environment may write]},
+  optional "scale": s (numbers in shares / put / inc / cmp / check literals are ints in units of 1/s; default 1),
+  optional "qpu": quanta per store unit (only for `elapsed <op> share` conditions),
+  optional "fielded": [shares whose data is the field `pos` (instead of `value`) and that may get a second field `sub`
+  (field names that are not hexadecimal numerals: a bare `fa` as a goal is the number 250)]}
+share values: int (in units of 1/scale), str, bool - a share keeps the kind of its initial value
 acts:  {"k":"rec","tag"} {"k":"put","share","val"} {"k":"inc","share","by"} {"k":"copy","src","dst"}
+       {"k":"putf","share","field","val"}   put val into <field> in share (a second field of the share)
        {"k":"bid","ctl","who":[names]|["me"]|["all"],"period":-1|q} {"k":"done","who":"me"|name}
        {"k":"fiat","ctl","who"} {"k":"raise","what":"error"|"interrupt"}
        precur only: {"k":"go","far":key,"needs":[..],"transit":[]} {"k":"auxif","aux":name,"needs":[..]}
 needs: {"k":"always"|"cmp"|"cmpshare"|"bool"|"elapsed"|"recurred"|"done"|"status"|"auxdone", "neg":bool, ...}
+       {"k":"check","neg","src":"share"|"elapsed"|"recurred","share":name|"","st":"n"|"s"|"b","op",
+        "gk":"lit"|"share","goal":literal|share name,"gt":"n"|"s"|"b","tol":int, optional "fl":bool (whole numbers
+        printed as floats)}      state <op> goal [+- tol]; numeric literals in units of 1/scale (elapsed: quanta)
+       {"k":"truthy","neg","share","st"}                    bare `if share`
+       {"k":"updated"|"changed","neg","share","frame":key|"","by":marker|"","form":"name"|"me"|"bare"}
+        (transitions only)       share is updated|changed [in frame F] [by marker]
 Time is in integer quanta; QUANTUM maps it to seconds (binary-exact by default).
 """
 from fractions import Fraction
 
 QUANTUM = Fraction(1, 16)
+MAIN, EXTRA = "pos", "sub"     # field names of the shares listed in prog["fielded"]
 
 
 def num(q, quantum=None):
@@ -27,17 +41,62 @@ def num(q, quantum=None):
     return repr(float(x))
 
 
+def numtext(v, scale=1, fl=False):
+    """int in units of 1/scale -> literal text (whole numbers as ints unless fl)"""
+    x = Fraction(v, scale)
+    if x.denominator == 1 and not fl:
+        return "%d" % x.numerator
+    return repr(float(x))
+
+
+def valtext(v, scale=1, fl=False):
+    if isinstance(v, bool):
+        return "True" if v else "False"
+    if isinstance(v, str):
+        return '"%s"' % v
+    return numtext(v, scale, fl)
+
+
+def ref(prog, s):
+    """how acts and comparison conditions refer to the data of share s"""
+    return MAIN + " in " + s if s in prog.get("fielded", ()) else s
+
+
 def need_text(prog, n, quantum=None):
     k = n["k"]
     neg = "not " if n.get("neg") else ""
+    scale = prog.get("scale", 1)
+    if k == "check":
+        clock = n["src"] != "share"
+        state = ref(prog, n["share"]) if not clock else n["src"]
+
+        def lit(v):
+            if n["src"] == "elapsed":
+                return num(v, quantum)
+            return valtext(v, scale, n.get("fl", False))
+        goal = ref(prog, n["goal"]) if n["gk"] == "share" else lit(n["goal"])
+        s = "%s%s %s %s" % (neg, state, n["op"], goal)
+        if n["tol"] != 0 or n.get("tolzero"):
+            s += " +- %s" % lit(n["tol"])
+        return s
+    if k == "truthy":
+        return "%s%s" % (neg, ref(prog, n["share"]))
+    if k in ("updated", "changed"):
+        s = "%s%s is %s" % (neg, n["share"], k)
+        if n["frame"]:
+            form = n.get("form", "name")
+            s += " in frame" + ("" if form == "bare" else " me" if form == "me" else " " + prog["frames"][n["frame"]]["name"])
+        if n["by"]:
+            s += " by %s" % n["by"]
+        return s
     if k == "always":
         return neg + "elapsed >= 0.0"
     if k == "cmp":
-        return "%s%s %s %d" % (neg, n["share"], n["op"], n["goal"])
+        return "%s%s %s %s" % (neg, ref(prog, n["share"]), n["op"], numtext(n["goal"], scale))
     if k == "cmpshare":
-        return "%s%s %s %s" % (neg, n["share"], n["op"], n["goal"])
+        return "%s%s %s %s" % (neg, ref(prog, n["share"]), n["op"], ref(prog, n["goal"]))
     if k == "bool":
-        return "%s%s" % (neg, n["share"])
+        return "%s%s" % (neg, ref(prog, n["share"]))
     if k == "elapsed":
         return "%selapsed %s %s" % (neg, n["op"], num(n["goal"], quantum))
     if k == "recurred":
@@ -59,14 +118,17 @@ def needs_text(prog, ns, quantum=None):
 
 def act_lines(prog, a, ctx, quantum=None):
     k = a["k"]
+    scale = prog.get("scale", 1)
     if k == "rec":
         return ["do vfrec at %s with tag \"%s\"" % (ctx, a["tag"])]
     if k == "put":
-        return ["put %d into %s" % (a["val"], a["share"])]
+        return ["put %s into %s" % (valtext(a["val"], scale), ref(prog, a["share"]))]
+    if k == "putf":
+        return ["put %s into %s in %s" % (valtext(a["val"], scale), a["field"], a["share"])]
     if k == "inc":
-        return ["inc %s with %d" % (a["share"], a["by"])]
+        return ["inc %s with %s" % (ref(prog, a["share"]), numtext(a["by"], scale))]
     if k == "copy":
-        return ["copy %s into %s" % (a["src"], a["dst"])]
+        return ["copy %s into %s" % (ref(prog, a["src"]), ref(prog, a["dst"]))]
     if k == "bid":
         s = "bid %s %s" % (a["ctl"], " ".join(a["who"]))
         if a.get("period", -1) >= 0:
@@ -87,7 +149,7 @@ CONTEXTS = ("enter", "renter", "recur", "exit", "rexit")
 def emit(prog, quantum=None, house="h1"):
     out = ["house %s" % house, ""]
     for s, v in prog["shares"].items():
-        out.append("  init %s with %d" % (s, v))
+        out.append("  init %s with %s%s" % (s, MAIN + " " if s in prog.get("fielded", ()) else "", valtext(v, prog.get("scale", 1))))
     out.append("")
     # declaration order: taskables in house order first, then aux / slave framers
     names = list(prog["order"]) + [f for f in prog["framers"] if f not in prog["order"]]
